@@ -431,6 +431,8 @@ class Ctx:
         elif isinstance(a, bool):
             if not a:
                 self.solver.add(z3.BoolVal(False))
+        elif hasattr(a, "z3") and callable(a.z3):
+            self.solver.add(a.z3())
         else:
             self.solver.add(a)
 
@@ -515,6 +517,8 @@ class Ctx:
         for a in self.assumptions + self.path:
             if isinstance(a, SBool):
                 names.update(a.p.atoms())
+                o.add(a.z3())
+            elif hasattr(a, "z3") and callable(a.z3):
                 o.add(a.z3())
             elif not isinstance(a, bool):
                 o.add(a)
